@@ -1,12 +1,12 @@
-\* C45 leg A thorough (filter-centred): <=2 rules over group {g1} x alert x a in {absent,"1",templated (two forms)} x
+\* C45 leg A thorough (filter-centred): <=2 rules over group {g1} x alert x a in {absent,"1",templated (text+action+text form)} x
 \* r in {"1","2"} x state firing; <=2 selector sets, <=2 matchers per set, <=3 matchers in total, matchers
-\* {a,r} x ({EQ,NEQ} x {"","1"} + RE x {"1|2","|2"}).  Every input (274 261) is model-checked; leg B gets the
-\* inputs with <=1 set or <=1 rule (45 270).
+\* {a,r} x ({EQ,NEQ} x {"","1"} + RE x {"1|2","|2"}).  Every input (161 551) is model-checked; leg B gets the
+\* inputs with <=1 set or <=1 rule (31 951).
 SPECIFICATION Spec
 CONSTANTS MaxRules = 2
           Groups = {"g1"}
           Types = {"alert"}
-          AVals = {"", "1", "T", "M"}
+          AVals = {"", "1", "M"}
           RVals = {"1", "2"}
           States = {3}
           MaxSets = 2
